@@ -55,6 +55,8 @@ import PyElf.Proofs.GnuExamples
 import PyElf.Props.C01
 import PyElf.Props.TieC14File
 import PyElf.Props.TieC03
+import PyElf.Model.SymCache
+import PyElf.Proofs.SigCache
 namespace PyElf.Props.C03
 open PyElf PyElf.Spec PyElf.Model PyElf.Proofs
 
@@ -1575,5 +1577,31 @@ theorem gnu_lookup_decoded_valid {le : Bool} {cls : Nat} {data : Bytes} {h : Sec
 theorem assemble_layout_core (env : Env) (d : ElfDesc) (tail : Nat) (bytes : Bytes)
     (hwf : wfZCore env d = true) (h : d.assemble tail = some bytes) : Layout d bytes :=
   Proofs.C03L.assemble_layout_core hwf h
+
+/-! ### the cache `_symbol_name_map` -/
+
+/-- symtab_by_name_history_independent.  For ANY section bytes: after ANY history of `get_symbol_by_name` calls on one
+    `SymbolTableSection` object — repeated names, absent names, calls whose walk raised — every answer is the stateless
+    `getSymbolByName` (the function the by-name exactness theorems are about).  The harness asks all the names of a case
+    on ONE section object and compares each answer with the stateless model and with the description. -/
+theorem symtab_by_name_history_independent (S : ElfStructs) (env : Env) (data : Bytes) (h : SecHdr) (strOff : Nat)
+    (qs : List Bytes) :
+    (symByNameHist S env data h strOff qs).1 = qs.map (getSymbolByName S env data h strOff) := by
+  unfold symByNameHist
+  rw [(Proofs.SigCache.run_answers _ _ _ _ (Proofs.SigCache.inv_init _)).1]
+  apply List.map_congr_left
+  intro q _
+  unfold Model.SigCache.stateless symNameScan getSymbolByName
+  cases iterSymbols S env data h strOff <;> rfl
+
+/-- a walk that raised publishes no map (the defect class of the half-built `defaultdict`) -/
+theorem symtab_failed_walk_publishes_nothing (S : ElfStructs) (env : Env) (data : Bytes) (h : SecHdr) (strOff : Nat)
+    (e : Err) (he : iterSymbols S env data h strOff = .error e) (qs : List Bytes) :
+    (symByNameHist S env data h strOff qs).2.map.isSome = false := by
+  unfold symByNameHist
+  rw [Proofs.SigCache.run_published]
+  unfold symNameScan
+  rw [he]
+  simp
 
 end PyElf.Props.C03
